@@ -6,4 +6,4 @@ wt=/tmp/mutwt_$$
 git -C /repo worktree add --detach $wt HEAD >/dev/null 2>&1 || { echo "cannot create worktree"; exit 9; }
 trap 'git -C /repo worktree remove --force '$wt' >/dev/null 2>&1; git -C /repo worktree prune' EXIT
 git -C $wt apply "$patch" 2>/dev/null || git -C $wt apply --3way "$patch" || { echo "patch does not apply"; exit 9; }
-VERIF_REPO=$wt timeout ${TRYMUT_TIMEOUT:-1500} python3-vt /verif/engine/check.py $prop --no-evidence "$@" 2>&1 | grep -E "VIOLATION|KNOWN|exit|assertion:|counterexample|job |disagree|not reprod|internal|error" | cut -c1-400
+VERIF_REPO=$wt timeout ${TRYMUT_TIMEOUT:-1500} python3-vt /verif/engine/check.py $prop --no-evidence "$@" 2>&1 | if [ -n "$TRYMUT_RAW" ]; then cat; else grep -E "VIOLATION|KNOWN|exit|assertion:|counterexample|job |disagree|not reprod|internal|error|witness|reach" | cut -c1-400; fi
